@@ -237,6 +237,7 @@ def main(argv=None):
                 continue
             native_fail.append(f)
 
+    matched_native = set()
     for cl in failed_clauses:
         obs = [ob for ob in failed if clause_of(ob["name"]) == cl]
         was_proved = cl in base_clauses
@@ -251,6 +252,7 @@ def main(argv=None):
             "replay_cmd": "./check %s --replay %s" % (prop, os.path.relpath(rp, VERIF)),
         }
         json.dump(info, open(rp, "w"), indent=1)
+        matched_native.update(f.get("key") for f in rel)
         if rel:
             violations.append((cl, rp, ""))
         elif any(ob["result"]["status"] == "sat" for ob in obs) or was_proved:
@@ -258,7 +260,8 @@ def main(argv=None):
         else:
             undecided.append(cl)
     # a failing native input without any failed obligation is a hole in the contracts: report it too
-    if native_fail and not failed_clauses:
+    native_fail = [f for f in native_fail if f.get("key") not in matched_native]
+    if native_fail:
         rp = os.path.join(replay_dir, "native_only.json")
         json.dump({"property": prop, "obligation": None, "native_failing_inputs": native_fail[:5],
                    "engine_errors": [{"unit": u["name"], "error": u["error"]} for u in engine_errors_early],
